@@ -250,10 +250,21 @@ def cascade(F, R):
                     if n.get('n') == 'preprocess_entry': return 'P'
                     if n.get('n') == 'postprocess_entry': return 'Q'
                     if n.get('n') == 'on_entry' and n.get('obj') and f.base_member(n['obj']) == 'm_history': return 'H%d' % len(n['args'])
+                    if n.get('n') in ('mp_for_each', 'visit') and 'ENTRY' in E.call_classes(f, n): return 'E'
                     return None
                 seqs = tokens_on_paths(f, cl)
                 R.seen(f); R.anchor('composite-entry:backmp11')
-                ok = all(s == ['P', 'H3', 'Q'] for s in seqs)
+                # own entry (P) before the substates' entries; the history policy selects the states before they are entered - either in
+                # one step (H3: select and enter) or as H2 (select) followed by the entry visit E; pending events (Q) last.  Whether
+                # the selection happens before or after the machine's own entry is not part of this rule (C04.pool-reset decides it).
+                def ok_entry(s):
+                    if s.count('P') != 1 or s.count('Q') != 1 or s[-1] != 'Q': return False
+                    body = [x for x in s if x not in ('P', 'Q')]
+                    if body == ['H3']: return s.index('P') < s.index('H3')
+                    if body == ['H2', 'E']: return s.index('P') < s.index('E')
+                    return False
+                ok = all(ok_entry(s) for s in seqs)
+                if ok and all('H2' in s for s in seqs): R.anchor('history-select-then-enter:backmp11')
                 R.ob('C08.sites', ok, {'func': f.q, 'sequences': seqs})
                 if not ok: R.find('C08.sites', f, 'composite-entry', 'composite entry must run own entry, then the history-selected substates\' entries, then the pending events; found %s' % seqs)
             if f.n == 'preprocess_entry':
@@ -281,7 +292,14 @@ def cascade(F, R):
                     return None
                 seqs = tokens_on_paths(f, cl)
                 R.seen(f); R.anchor('explicit-entry:backmp11')
-                ok = all(s in (['P', 'H2', 'W', 'E', 'Q'], ['P', 'W', 'E', 'Q']) for s in seqs)
+                # own entry (P) before the substates' entries (E); the history policy for the regions not named (H2, optional) before
+                # the named regions are overridden (W); W before E; pending events (Q) last
+                def ok_explicit(s):
+                    if s.count('P') != 1 or s.count('Q') != 1 or s[-1] != 'Q' or s.count('W') != 1 or s.count('E') != 1 or s.count('H2') > 1: return False
+                    if [x for x in s if x not in ('P', 'Q', 'W', 'E', 'H2')]: return False
+                    if 'H2' in s and s.index('H2') > s.index('W'): return False
+                    return s.index('W') < s.index('E') and s.index('P') < s.index('E')
+                ok = all(ok_explicit(s) for s in seqs)
                 R.ob('C09.entry', ok, {'func': f.q, 'sequences': seqs})
                 if not ok: R.find('C09.entry', f, 'explicit-entry', 'explicit entry must run own entry, apply history to the regions not named, override the named regions, run the entries, then the pending events; found %s' % seqs)
                 # when the targets do not name every region the history policy (also the "no history" one, which resets to the
@@ -346,7 +364,7 @@ def cascade(F, R):
                 if n.get('n') in ('visit', 'mp_for_each'): return 'V'
                 return None
             seqs = tokens_on_paths(f, cl)
-            R.seen(f); R.anchor('history-entry:backmp11')
+            R.seen(f); R.anchor('history-entry:backmp11'); R.anchor('history-select-then-enter:backmp11')
             ok = all(s == ['S', 'V'] for s in seqs)
             R.ob('C08.sites', ok, {'func': f.q, 'sequences': seqs})
             if not ok: R.find('C08.sites', f, 'history-entry', 'history entry must first set all active ids, then run the entries of exactly those states; found %s' % seqs)
@@ -735,6 +753,25 @@ def drain(F, R):
                 R.ob('C10.first', ok2, {'func': f.q, 'armed_by': f.expr(n['args'][1])})
                 if not ok2:
                     R.find('C10.first', f, 'completion-arm', 'the completion pass after a dispatch must be armed by HANDLED_TRUE of that dispatch alone; the flag given to the completion helper is %s and also depends on %s' % (f.expr(n['args'][1]), sorted(set(extra)) or 'nothing from the dispatch'), where=f.at(i))
+
+            # the completion pass is told where the step's event came from: inside a step that has an event source of its own the
+            # helper gets that source (with the default "direct" it would drain the message queue itself although the step was taken
+            # out of the queue by a single-step call)
+            for i, n in f.calls():
+                if n.get('n') != 'process_completion_event' or n.get('pc') != 'handle_eventless_transitions_helper': continue
+                g = F.bykey.get(n.get('fk'))
+                if g is None or not g.d['params']: continue
+                # the step's own event source: a parameter of the caller of the same (canonical) type as the helper's source parameter
+                src_params = [p['n'] for p in f.d['params'] if F.strs[p['t']] == F.strs[g.d['params'][0]['t']]]
+                if src_params:
+                    R.anchor('completion-source:' + be)
+                    a = n.get('args') or []
+                    x = f.nodes[a[0]] if a else None
+                    while x and x['k'] in ('icast', 'cast'): x = f.nodes[x['e']]
+                    ok3 = bool(x) and x['k'] == 'ref' and x.get('dk') == 'param' and x['n'] in src_params
+                    R.ob('C10.first', ok3, {'func': f.q, 'completion_source': f.expr(a[0]) if a else '(default)'})
+                    if not ok3:
+                        R.find('C10.first', f, 'completion-source', 'the completion pass inside %s is started with %s instead of the event source of the step (%s): a completion event then counts as a direct submission and drains the message queue even when the step came out of the queue through execute_single_queued_event' % (f.n, f.expr(a[0]) if a and x else 'the default source', src_params[0]), where=f.at(i))
 
 # ------------------------------------------------------------------ history policies (C08.table, C08.event)
 
@@ -1685,6 +1722,34 @@ def serstates(F, R):
                                 if x and 't' in x and 'serialize_state<' in F.strs[x['t']]: ok = True
             R.ob('C16.fields', ok, {'func': f.q, 'walks_substates': ok})
             if not ok: R.find('C16.fields', f, 'no-walk', 'serialize does not apply serialize_state to every element of m_substate_list')
+
+@rule('serelem')
+def serelem(F, R):
+    """C16.fields (back / back11), what serialize_state does with one element of the substate list: an element that has something to
+    archive - a nested back-end machine (active states, history, its own states) or a state whose class asks for it (do_serialize) -
+    is handed to the archive on EVERY path through the functor's call operator, whatever the run-time configuration; oracle: the
+    element type (is it a back-end machine, does it or a base declare do_serialize)."""
+    M = Model(F)
+    for f in F.funcs:
+        be = backend_of(f)
+        if be not in ('back', 'back11') or not f.blocks or f.cls != 'serialize_state' or f.n != 'operator()': continue
+        ta = f.targs() or []
+        if not ta: continue
+        T = strip_cvref(str(ta[0]))
+        needs = M.machine_of(T) is not None or M.declares_option(T, 'do_serialize', through_configuration=False)
+        ars = [i for i, n in f.calls() if n.get('op') == '&' or n.get('n') in ('operator&', 'operator<<', 'operator>>', 'serialize')]
+        R.seen(f); R.anchor('serialize-element:' + be + (':archived' if needs else ':plain'))
+        if not needs: continue
+        ok = bool(ars); why = 'the element is never handed to the archive'
+        if ok:
+            for p in f.paths(edge_bound=1):
+                if f.aborts(p): continue
+                if not any(i in ars for i in f.path_nodes(p)):
+                    ok = False; why = 'a path through the call operator returns without handing the element to the archive'
+                    break
+        R.ob('C16.fields', ok, {'func': f.q, 'element': Facts.short(T, 60)})
+        if not ok:
+            R.find('C16.fields', f, 'element-skipped', 'serialize_state for %s (a %s): %s - its data (for a machine: active states, history and every state nested in it) keeps the constructor values in the loaded machine' % (Facts.short(T, 60), 'nested machine' if M.machine_of(T) is not None else 'state with do_serialize', why), instance=Facts.short(T, 120))
 
 @rule('functors')
 def functors(F, R):
